@@ -147,6 +147,9 @@ func (g *genState) label0() string {
 		if fid == 5 && !g.big {
 			fid = 2
 		}
+		if fid == 12 && !g.r.Chance(1, 4) {
+			fid = 11
+		}
 		if fid == 6 && (g.noOpenPush || !g.r.Chance(1, 10)) {
 			fid = 9 // known finding C08-K3 (empty fragment): keep it rare
 		}
@@ -243,6 +246,14 @@ func Gen(r *hx.RNG, profile string, n int, big, lockstep bool) []string {
 	if r.Chance(1, 2) {
 		out = append(out, g.note(fmt.Sprintf("S%s:4=%d", sides[r.Intn(2)], g.pick(0, 0, 1, 5, 10, 100))))
 	}
+	if profile == "c08" && r.Chance(1, 12) {
+		// the receiver raises HEADER_TABLE_SIZE, the sender's encoder follows (size update above
+		// 4096), sends ~7 KB of indexable fields and then the same list again as indexed references
+		x := r.Intn(2)
+		out = append(out, g.note(fmt.Sprintf("S%s:1=%d", sides[x], g.pick(8192, 65536, 65536))), g.note("A"+sides[1-x]))
+		s1, s2 := g.sid(), g.sid()
+		out = append(out, g.note(fmt.Sprintf("H%s:%d:0:1:-:-:12:0", sides[1-x], s1)), g.note(fmt.Sprintf("H%s:%d:0:1:-:-:12:0", sides[1-x], s2)))
+	}
 	for len(out) < n {
 		out = append(out, g.label())
 	}
@@ -277,6 +288,84 @@ func GenPreface(r *hx.RNG) []string {
 		}
 		out = append(out, hx.Hex(all[:k]))
 		all = all[k:]
+	}
+	return out
+}
+
+// GenRegime produces a C09 script in one of three flow-control regimes with several DATA frames
+// queued on ONE stream and grants in every relation to the queued sizes:
+// a: only the connection window binds (stream window 1 MiB, connection window used up),
+// b: only the stream window binds, c: both.
+func GenRegime(r *hx.RNG, regime byte) []string {
+	pick := func(xs ...int) int { return xs[r.Intn(len(xs))] }
+	var out []string
+	win, conn := 65535, 65535
+	switch regime {
+	case 'a', 'c':
+		out = append(out, "Ss:5=65535,4=1048576", "Hc:1:0:1:-:-:0:0", fmt.Sprintf("Dc:1:0:-:z65535.%d", r.Intn(200)))
+		win, conn = 1048576-65535, 0
+		if regime == 'c' {
+			w := pick(0, 1, 5, 20)
+			out = append(out, fmt.Sprintf("Ss:4=%d", 65535+w))
+			win = w
+		}
+	case 'b':
+		w := pick(0, 0, 1, 5)
+		out = append(out, fmt.Sprintf("Ss:4=%d", w), "Hc:1:0:1:-:-:0:0")
+		win = w
+	}
+	var q []int
+	emit := func() {
+		for len(q) > 0 && q[0] <= win && q[0] <= conn {
+			win -= q[0]
+			conn -= q[0]
+			q = q[1:]
+		}
+	}
+	n := r.Range(2, 5)
+	for i := 0; i < n; i++ {
+		sz := pick(1, 2, 3, 5, 8, 13, 21)
+		q = append(q, sz)
+		out = append(out, fmt.Sprintf("Dc:1:%d:-:z%d.%d", b2i(i == n-1 && r.Chance(1, 2)), sz, r.Intn(200)))
+		emit()
+	}
+	if r.Chance(1, 3) {
+		out = append(out, fmt.Sprintf("Dc:3:0:-:z%d.1", pick(1, 4, 9)))
+	}
+	for g := 0; g < 7 && len(q) > 0; g++ {
+		tot := 0
+		for _, x := range q {
+			tot += x
+		}
+		second := q[0]
+		if len(q) > 1 {
+			second += q[1]
+		}
+		k := pick(q[0]-1, q[0], q[0]+1, second-1, second, tot, tot+1, 1)
+		if k < 1 {
+			k = 1
+		}
+		onConn := regime == 'a' || (regime == 'c' && conn <= win) || (regime == 'c' && r.Chance(1, 3))
+		if regime == 'a' && win < q[0] {
+			onConn = false
+		}
+		if onConn && !(regime == 'b') {
+			need := q[0] - conn
+			if regime == 'c' && need <= 0 {
+				onConn = false
+			}
+		}
+		if regime == 'b' {
+			onConn = false
+		}
+		if onConn {
+			out = append(out, fmt.Sprintf("Ws:0:%d", k))
+			conn += k
+		} else {
+			out = append(out, fmt.Sprintf("Ws:1:%d", k))
+			win += k
+		}
+		emit()
 	}
 	return out
 }
